@@ -49,8 +49,13 @@ Definition is_idle (s : cstate) (t : nat) : bool :=
 (* tokio's gate is FIFO: a thread leaves TIdle only if no started thread with a smaller index
    (= earlier in the queue: the explorer starts operations in index order) is still waiting.
    This is a scheduling STRATEGY of the replay, not a restriction of the model. *)
+(* only operations that take the gate queue on it: a get takes none, is never held back by the
+   queue and does not hold anybody back *)
+Definition queues_on_gate (s : cstate) (t : nat) : bool :=
+  match nth_error (c_threads s) t with Some (o, TIdle) => negb (is_read o) | _ => false end.
+
 Definition fifo_ok (s : cstate) (started : list nat) (t : nat) : bool :=
-  forallb (fun t' => negb ((t' <? t)%nat && is_idle s t')) started.
+  forallb (fun t' => negb ((t' <? t)%nat && queues_on_gate s t')) started.
 
 (* replay state: model state, schedule so far (reversed) *)
 Definition rs := (cstate * list nat)%type.
@@ -60,7 +65,7 @@ Fixpoint advance (fuel : nat) (started : list nat) (t : nat) (x : rs) : rs :=
   | O => x
   | S f =>
     let '(s, sched) := x in
-    if is_idle s t && negb (fifo_ok s started t) then x
+    if queues_on_gate s t && negb (fifo_ok s started t) then x
     else match tstep s t with
          | Some (s', None) => advance f started t (s', t :: sched)
          | _ => x
